@@ -90,6 +90,8 @@ type JobResult struct {
 	Steps        int64          `json:"steps"`
 	Checks       int            `json:"checks"`
 	Branches     int            `json:"branches"`
+	WitnessHits  int            `json:"witness_hits"`
+	MemoHits     int            `json:"memo_hits"`
 	Funcs        []string       `json:"funcs"`
 	Models       map[string]int `json:"models"`
 	Nondets      int            `json:"max_nondets"`
@@ -134,6 +136,8 @@ func newMachine(P *Program, ctx *Ctx, solver *Solver, cfg *JobCfg, stats *Stats)
 	m.mutexes = map[uint64]bool{}
 	m.reached = map[string]bool{}
 	m.violSeen = map[string]int{}
+	m.varMemo = map[int][]int{}
+	m.qmemo = map[string]Result{}
 	m.stepLimit = cfg.StepLimit
 	m.poolPolicy = cfg.PoolPolicy
 	m.allocBytes = ctx.Const(0, 64)
@@ -191,6 +195,8 @@ func (m *Machine) restore(b *baseState, epoch int) {
 	m.allocBytes = m.ctx.Const(0, 64)
 	m.lastPanic = ""
 	m.phase = ""
+	m.witnesses = []witness{{}}
+	m.lastModel = nil
 }
 
 // runInits executes the package initialisers we model from source.
@@ -284,7 +290,7 @@ func runJob(P *Program, job *Job) (res *JobResult) {
 	}
 	base := m.snapshot()
 	// ---- path exploration (DFS over decision prefixes) ----
-	work := [][]int{nil}
+	work := []pendingPath{{}}
 	reached := map[string]bool{}
 	inconc := map[string]bool{}
 	deadline := start.Add(time.Duration(job.Cfg.TimeoutS) * time.Second)
@@ -299,11 +305,14 @@ func runJob(P *Program, job *Job) (res *JobResult) {
 			inconc[fmt.Sprintf("time limit %ds reached with %d prefixes pending", job.Cfg.TimeoutS, len(work))] = true
 			break
 		}
-		prefix := work[len(work)-1]
+		pp := work[len(work)-1]
 		work = work[:len(work)-1]
 		epoch++
 		m.restore(base, epoch)
-		m.prefix = prefix
+		m.prefix = pp.prefix
+		if pp.wit != nil {
+			m.witnesses = append(m.witnesses, pp.wit)
+		}
 		m.reached = map[string]bool{}
 		m.observed = nil
 		if job.Fixed != nil || job.FixedSeed != 0 {
@@ -384,6 +393,8 @@ func runJob(P *Program, job *Job) (res *JobResult) {
 	res.SolverS = solver.Time.Seconds()
 	res.Checks = stats.Checks
 	res.Branches = stats.Branches
+	res.WitnessHits = stats.WitnessHits
+	res.MemoHits = stats.MemoHits
 	for f := range stats.Funcs {
 		res.Funcs = append(res.Funcs, f)
 	}
